@@ -327,6 +327,86 @@ let c14v_line q id sel root blocks obs =
   let verdict = if model_obs = "compile:unsupported" then "skip" else c14v_oracle obs in
   print_string id; print_char '\t'; print_string model_obs; print_char '\t'; print_endline verdict
 
+(* Record: id, "c14n", selector, root, blocks, script, observation: Focus / Get / WalkAdv on the Progress handed to a
+   callback.  State: the path carried so far, the node, LastBlock.Link. *)
+type nst = NF of seg list | NG of seg list | NW of int
+
+let parse_script (s : string) : nst list =
+  List.map (fun p ->
+      let arg = String.sub p 2 (String.length p - 2) in
+      match p.[0] with
+      | 'F' -> NF (parse_segs arg)
+      | 'G' -> NG (parse_segs arg)
+      | _ -> NW (if arg = "-" then -1 else int_of_string arg))
+    (String.split_on_char '>' s)
+
+let c14n_model q sel root blocks script : string =
+  match compile (dm_of_string sel) with
+  | CErr -> "compile:err"
+  | CUnsupported -> "compile:unsupported"
+  | COk s ->
+    let g = parse_blocks blocks in
+    let rep = ref [] in
+    let add x = rep := x :: !rep in
+    (* returns the error class *)
+    let rec exec (pre : seg list) (n : dm) (link : n list option) (steps : nst list) : string =
+      match steps with
+      | [] -> "ok"
+      | NF qs :: rest ->
+        (match focus_from g pre n qs with
+         | Err e -> gerr_name e
+         | Ok ((v, path), lb) ->
+           let lbt = match lb with
+             | None -> "^"
+             | Some (rel, l) -> segs_text rel ^ "@" ^ short [l] in
+           add ("f;" ^ segs_text path ^ ";" ^ lbt ^ ";" ^ string_of_dm v);
+           let link' = match lb with Some (_, l) -> Some l | None -> link in
+           exec path v link' rest)
+      | NG qs :: _ -> add ("g;" ^ get_text g n qs); "ok"
+      | NW k :: rest ->
+        let ls = match link with Some l -> [l] | None -> [] in
+        let (evs, o) = walk q g fuel ls pre n s in
+        if k < 0 then begin
+          List.iter (fun e -> match e with
+              | EVisit (p, nd, r, ls') ->
+                add ("v;" ^ segs_text p ^ ";" ^ (match r with RMatch -> "m" | RCand -> "x") ^ ";" ^ short ls' ^ ";" ^
+                     digest (string_of_dm nd))
+              | ELoad _ -> ()) evs;
+          class_of o
+        end else begin
+          let visits = List.filter_map (fun e -> match e with EVisit (p, nd, _, ls') -> Some (p, nd, ls') | _ -> None) evs in
+          match List.nth_opt visits k with
+          | Some (p, nd, ls') ->
+            exec p nd (match ls' with l :: _ -> Some l | [] -> None) rest
+          | None -> class_of o
+        end in
+    let cls = exec [] (dm_of_string root) None (parse_script script) in
+    String.concat "," (List.rev !rep) ^ "|" ^ cls
+
+let c14n_line q id sel root blocks script obs =
+  let model_obs = c14n_model q sel root blocks script in
+  let verdict =
+    if model_obs = "compile:unsupported" then "skip" else begin
+      (* independent of the model: a nested focus reports a path that extends the path of the callback it was started
+         from, and leaves LastBlock alone unless it loads a block *)
+      let i = try String.rindex obs '|' with Not_found -> 0 in
+      let body = String.sub obs 0 i in
+      let fails = ref [] in
+      let fail x = if not (List.mem x !fails) then fails := x :: !fails in
+      let prev = ref "" in
+      if body <> "" then
+        List.iter (fun r ->
+            match String.split_on_char ';' r with
+            | "f" :: path :: lb :: _ ->
+              if not (is_prefix_path !prev path) then fail "nested_focus_path";
+              if lb = "!changed" then fail "nested_focus_lastblock";
+              prev := path
+            | "v" :: path :: _ -> if not (is_prefix_path !prev path) then fail "nested_walk_path"
+            | _ -> ()) (String.split_on_char ',' body);
+      if !fails = [] then "ok" else "fail:" ^ String.concat "," (List.rev !fails)
+    end in
+  print_string id; print_char '\t'; print_string model_obs; print_char '\t'; print_endline verdict
+
 let c14p_line id root blocks path obs =
   let g = parse_blocks blocks and r = dm_of_string root in
   let gt = get_text g r (parse_segs path) in
@@ -536,6 +616,7 @@ let process line =
     | id :: "c07" :: sel :: root :: blocks :: obs :: _ -> c07_line !cur_q id sel root blocks obs
     | id :: "c10s" :: sel :: root :: blocks :: obs :: _ -> c10s_line !cur_q id sel root blocks obs
     | id :: "c14v" :: sel :: root :: blocks :: obs :: _ -> c14v_line !cur_q id sel root blocks obs
+    | id :: "c14n" :: sel :: root :: blocks :: script :: obs :: _ -> c14n_line !cur_q id sel root blocks script obs
     | id :: "c14p" :: root :: blocks :: path :: obs :: _ -> c14p_line id root blocks path obs
     | id :: "c14r" :: segs :: obs :: _ -> c14r_line id segs obs
     | _ -> ()
